@@ -136,7 +136,7 @@ class Evaluator:
     MAX_DEPTH = 14
     MAX_REENTRY = 2
 
-    def __init__(self, prog, recv_cls=None, assume=None, record_loads=True, nonnull=()):
+    def __init__(self, prog, recv_cls=None, assume=None, record_loads=True, nonnull=(), max_reentry=None):
         self.prog = prog
         self.recv = recv_cls
         self.assume = dict(assume or {})
@@ -150,6 +150,8 @@ class Evaluator:
         self._attr_types = None
         self._seq = 0
         self.nonnull = set(nonnull)
+        if max_reentry is not None:
+            self.MAX_REENTRY = max_reentry
 
     # ------------------------------------------------------------------ api
     def run(self, fi, args=None, kwargs=None, has_self=None):
@@ -1152,6 +1154,10 @@ class Evaluator:
             return args[0]
         if d == "getattr" or d == "setattr":
             raise AnalysisError("dynamic attribute access (%s) at line %d" % (d, node.lineno))
+        if d == "abs" and len(args) == 1 and not kwargs:
+            res = T.mk_abs(args[0])  # |x| = |-x|: canonical sign
+            self.emit("call", node, callee=("lib", d), fi=None, args=tuple(args), kwargs=(), result=res)
+            return res
         a = tuple(args)
         if d in COMMUTATIVE:
             a = tuple(sorted(a, key=T.akey))
